@@ -13,7 +13,7 @@ from fractions import Fraction as F
 import numpy as np
 import astropy.units as u
 
-from pbmc import bind_repo, report, factory
+from pbmc import bind_repo, report, factory, history
 from pbmc.exact import time_days as T, hz, ULP_T
 from pbmc.oracles import dft, dispersion
 
@@ -281,6 +281,9 @@ def grid_case(case, res):
                 res.violation("dedisperse|result depends on what the caller did to an earlier chirp", f"after zeroing the array returned "
                               f"by {how} a new coherent_dedispersion differs from the first one", case, {"how": how})
             res.hits["caller modified an earlier chirp"] += 1
+        history.reuse_buffer(res, case, zn, [("coherent_dedispersion", lambda q_: pb.coherent_dedispersion(q_, d0)),
+                                             ("coherent_dedispersion ref=top", lambda q_: pb.coherent_dedispersion(q_, dms[2], ref_freq=q_.max_freq))],
+                             "dedisperse")
         # use the signal, re-assign its sample rate (and chan_bw, to keep the baseband contract), dedisperse: == freshly built signal
         obj = type(zn).like(zn)
         _ = (pb.coherent_dedispersion(obj, d0), obj.dt, obj.channel_freqs, obj.max_freq)
@@ -393,7 +396,7 @@ def check_case(case):
 def main(argv=None):
     return report.run_check(
         PID, gen_cases=gen_cases, check_case=check_case, describe=describe,
-        required_hits=["chirp checked", "|phi| > 1000 cycles (reduction mod 1 matters)",
+        required_hits=["buffer overwritten between calls", "chirp checked", "|phi| > 1000 cycles (reduction mod 1 matters)",
                        "block shorter than the sweep (empty result)", "cropped on both ends (reference inside band)",
                        "reference outside the band", "infinite reference frequency", "DM stored in another unit", "dask-backed siblings", "caller modified an earlier chirp", "sample_rate assigned between dedispersions", "wave packet moved by its delay", "DM then -DM"],
         assumptions=["chirp is single precision by design; budget 8 eps32 + 2 pi |phi| 32 eps64 (1 + f_ref/|f - f_ref|) for the "
